@@ -124,6 +124,9 @@ pub enum OpKind {
     CheckNow,
     /// every closed blob that holds records must have an up-to-date index file by now
     CheckDumped,
+    /// from here to the end of the session: no comparison queries, no settling between operations, and
+    /// `close()` is called at once after the last one (background work and queued requests still pending)
+    QuietTail,
     /// poll the operation `k` times, then drop its future (cancellation)
     Cancelled { k: u32, op: Box<OpKind> },
 }
